@@ -184,6 +184,21 @@ reg(Spec("C12", "c12_mmio.cpp", needs=("shim",),
                       "the DSP data path is used only while z_page = 0 and base + offset fits 16 bits (otherwise it is not the window)",
                       "memory effects of the DMA start are C13's subject; here only the register file and the ICU bit are compared"]))
 
+reg(Spec("C13", "c13_dma.cpp", needs=("shim",),
+         cases={"quick": 4000, "thorough": 80000},
+         rule="rapidcheck-generated histories of 1..3 transfers (later ones often on the channel of the first) on one real Teakra "
+              "instance: channel 0..7, size0/1/2 from {0,1,2,1..24/8/5}, source / destination steps from {0, unit, 2, small, "
+              "<400}, word / double-word mode, spaces DSP->DSP (30 % deliberately overlapping), ext->DSP, DSP->ext through an AHBM "
+              "channel with matching unit size and direction, bursts x4/x8 with step = unit size and whole bursts, start "
+              "addresses anywhere in the 17-bit data space (bank boundary straddled), started through the host accessor or the "
+              "DSP data path. Oracle: element sequence of dma.md applied in order to a model memory / model external memory; "
+              "compared: whole 512 KiB image, ordered external access log, ICU bit 15. Non-trivial = >= 2 dimensions with more "
+              "than one element, or overlap; distinct by hash of the encoded history.",
+         assumptions=["DSP-side addresses stay inside the 17-bit data space (beyond it is C18's subject); steps are added to the address as-is (unsigned)",
+                      "external accesses are naturally aligned, unit size matched to the element size; bursts only with step = unit size and whole bursts",
+                      "at most one external side per transfer (a DMA channel is bound to one AHBM channel with one direction flag)",
+                      "'exactly once' for the interrupt is observable only as 'pending after completion, not pending before' (the ICU bit does not count)"]))
+
 # Properties not (yet) claimed. Kept current by hand; every id in properties.jsonl is either in SPECS or here.
 _PENDING = "check not built yet in this round; planned with property-based testing per DESIGN.md"
 NOT_APPLICABLE = [{"property_id": "C%02d" % i, "reason": _PENDING} for i in range(1, 21) if "C%02d" % i not in SPECS]
